@@ -300,7 +300,16 @@ def judge_labels(N, n, p, ptype, relation):
         parg = np.array(p)
     else:
         parg = p
+    p_before = np.array(parg, dtype=float).copy() if ptype != 'scalar' else None
+    X_before = X.copy()
     ok, y = safe(g.generate_labels, X, n, parg, 2, None, relation)
+    if ok and ptype != 'scalar':
+        if not np.array_equal(np.array(parg, dtype=float), p_before) or not np.array_equal(X, X_before):
+            return [('labels_args_modified', f'generate_labels modified its arguments: p {p_before.tolist()} -> {np.array(parg, dtype=float).tolist()}')]
+        # the caller's distribution object is used for a second data set
+        ok2, y2 = safe(g.generate_labels, X, n, parg, 2, None, relation)
+        if not ok2 or not np.array_equal(np.asarray(y2), np.asarray(y)):
+            return [('labels_second_call', f'a second call with the same distribution object gives {"an exception " + str(y2) if not ok2 else "other labels"}')]
     if not ok:
         if 'sum of values' in str(y) and ptype != 'scalar' and sum(parg) > 1:
             return [('rejected', '')]   # the generator's own validation rejects this (float-rounded) distribution: outside the alphabet
